@@ -76,13 +76,13 @@ func (s *ErrSpec) build() (error, string) {
 		if s.Detail != "" {
 			detail = json.RawMessage(s.Detail)
 			c, _ := canon(detail)
-			dterm = "(Some " + hx.B(c) + ")"
+			dterm = "(Some " + pb(c) + ")"
 		}
 		return ociregistry.NewError(s.Msg, s.Code, detail),
-			fmt.Sprintf("(EWire (W %s %s %s))", hx.B(s.Code), hx.B(s.Msg), dterm)
+			fmt.Sprintf("(EWire (W %s %s %s))", pb(s.Code), pb(s.Msg), dterm)
 	case "wrap":
 		e, t := s.Inner.build()
-		return fmt.Errorf("%s%w", s.Prefix, e), fmt.Sprintf("(EWrap %s %s)", hx.B(s.Prefix), t)
+		return fmt.Errorf("%s%w", s.Prefix, e), fmt.Sprintf("(EWrap %s %s)", pb(s.Prefix), t)
 	case "http":
 		if s.Inner == nil {
 			return ociregistry.NewHTTPError(nil, s.Status, nil, nil), fmt.Sprintf("(EHttpNil %s)", hx.Z(int64(s.Status)))
@@ -90,7 +90,7 @@ func (s *ErrSpec) build() (error, string) {
 		e, t := s.Inner.build()
 		return ociregistry.NewHTTPError(e, s.Status, nil, nil), fmt.Sprintf("(EHttp %s %s)", hx.Z(int64(s.Status)), t)
 	case "plain":
-		return errors.New(s.Msg), "(EPlain " + hx.B(s.Msg) + ")"
+		return errors.New(s.Msg), "(EPlain " + pb(s.Msg) + ")"
 	}
 	panic("unknown error kind " + s.Kind)
 }
@@ -146,6 +146,32 @@ func observe(err error) view {
 	return v
 }
 
+// pb is hx.B with one scope annotation for the whole word list instead of one per word: case
+// files are a sixth smaller and parsed measurably faster.
+func pb(s string) string {
+	if s == "" {
+		return "[]"
+	}
+	var sb strings.Builder
+	fmt.Fprintf(&sb, "(p %d [", len(s))
+	for i := 0; i < len(s); i += 7 {
+		end := i + 7
+		if end > len(s) {
+			end = len(s)
+		}
+		var w uint64
+		for j := i; j < end; j++ {
+			w = w<<8 | uint64(s[j])
+		}
+		if i > 0 {
+			sb.WriteString("; ")
+		}
+		fmt.Fprintf(&sb, "%d", w)
+	}
+	sb.WriteString("]%uint63)")
+	return sb.String()
+}
+
 func optZ(p *int) string {
 	if p == nil {
 		return "None"
@@ -157,20 +183,24 @@ func optB(p *string) string {
 	if p == nil {
 		return "None"
 	}
-	return "(Some " + hx.B(*p) + ")"
+	return "(Some " + pb(*p) + ")"
 }
 
+// bools renders the errors.Is answers as Obs.C07.isbits of a bit mask (bit i = stds[i]).
 func bools(bs []bool) string {
-	out := make([]string, len(bs))
+	m := 0
 	for i, b := range bs {
-		out[i] = hx.Bool(b)
+		if b {
+			m |= 1 << i
+		}
 	}
-	return hx.List(out)
+	return fmt.Sprintf("(isbits %d)", m)
 }
 
+// positional record constructors: shorter to parse than the field syntax
 func (v view) coq() string {
-	return fmt.Sprintf("{| v_is := %s; v_status := %s; v_resp := %s; v_code := %s; v_detail := %s; v_msg := %s; v_text := %s |}",
-		bools(v.Is), optZ(v.Status), hx.Bool(v.Resp), optB(v.Code), optB(v.Detail), optB(v.Msg), hx.B(v.Text))
+	return fmt.Sprintf("(Build_view %s %s %s %s %s %s %s)",
+		bools(v.Is), optZ(v.Status), hx.Bool(v.Resp), optB(v.Code), optB(v.Detail), optB(v.Msg), pb(v.Text))
 }
 
 // callObs is one call through k hops: the caller's view plus the error response of every level.
@@ -188,14 +218,14 @@ type callObs struct {
 
 func (o callObs) coq() string {
 	if o.Bad != "" {
-		return "(OBad " + hx.B(o.Bad) + ")"
+		return "(OBad " + pb(o.Bad) + ")"
 	}
 	lens := make([]string, len(o.Lens))
 	for i, n := range o.Lens {
 		lens[i] = hx.Z(int64(n))
 	}
-	return fmt.Sprintf("(OCall {| o_lens := %s; o_wstatus := %s; o_wcode := %s; o_wmsg := %s; o_wdetail := %s; o_view := %s |})",
-		hx.List(lens), hx.Z(int64(o.WStatus)), hx.B(o.WCode), hx.B(o.WMsg), optB(o.WDetail), o.View.coq())
+	return fmt.Sprintf("(OCall (Build_callrec %s %s %s %s %s %s))",
+		hx.List(lens), hx.Z(int64(o.WStatus)), pb(o.WCode), pb(o.WMsg), optB(o.WDetail), o.View.coq())
 }
 
 // call runs carrier cr through the first k levels of the chain with the backend failing.
@@ -213,7 +243,7 @@ func call(c *chain, cr *carrier, k int, e error) (o callObs) {
 		}
 	}
 	c.resetRecs()
-	c.b.set(script{point: cr.Point, err: e})
+	c.b.set(script{point: cr.Point, err: e, big: cr.Big})
 	var err error
 	panicked, pv := hx.Recover(func() { err = cr.run(ctx, r, id) })
 	c.b.set(script{})
@@ -235,8 +265,8 @@ func call(c *chain, cr *carrier, k int, e error) (o callObs) {
 			o.Bad = fmt.Sprintf("handler panic at level %d: %s", lvl+1, rec.Body)
 			return
 		}
-		if rec.Method != cr.Method {
-			o.Bad = fmt.Sprintf("level %d answered a %s, expected %s", lvl+1, rec.Method, cr.Method)
+		if want := cr.methodAt(lvl, k); rec.Method != want {
+			o.Bad = fmt.Sprintf("level %d answered a %s, expected %s", lvl+1, rec.Method, want)
 			return
 		}
 		o.Lens = append(o.Lens, len(rec.Body))
@@ -266,35 +296,37 @@ type scenario struct {
 	Err     *ErrSpec `json:"err"`
 	Carrier string   `json:"carrier"`
 	Hops    int      `json:"hops"`
+	Config  string   `json:"config,omitempty"` // chain configuration, "" = default server options
 }
 
 var fields = []string{"Status", "Is", "Detail", "Message", "Head"}
 
 type runner struct {
-	c   *chain
-	out *hx.Out
+	chains map[string]*chain
+	out    *hx.Out
 }
+
+var configTerms = map[string]string{"": "KDefault", "quirks": "KQuirks"}
 
 func (rn *runner) scenario(sc scenario, origin string) {
 	cr := carrierByName(sc.Carrier)
-	if cr == nil || sc.Err == nil || sc.Hops < 1 || sc.Hops > maxHops {
+	ch := rn.chains[sc.Config]
+	if cr == nil || ch == nil || sc.Err == nil || sc.Hops < 1 || sc.Hops > maxHops || !cr.runsUnder(sc.Config) {
 		return
 	}
+	sc.Hops = cr.hops(sc.Hops)
 	e, term := sc.Err.build()
 	v0 := observe(e)
 	var calls []callObs
 	var callTerms []string
 	for k := 1; k <= sc.Hops; k++ {
-		o := call(rn.c, cr, k, e)
+		o := call(ch, cr, k, e)
 		calls = append(calls, o)
 		callTerms = append(callTerms, o.coq())
 	}
 	// tags derived from the observations and the carrier (never from the model); "finding" is
 	// computed exactly as Obs.C07.finding_of
-	kind := "body"
-	if cr.Method == "HEAD" {
-		kind = "HEAD"
-	}
+	kind := cr.kind()
 	msg1 := "none"
 	ambig := false
 	if len(calls) > 0 && calls[0].Bad == "" {
@@ -320,10 +352,15 @@ func (rn *runner) scenario(sc scenario, origin string) {
 	}
 	finding := func(f string) string {
 		head := kind == "HEAD"
+		heads := kind != "body" // a HEAD request at some level
 		switch f {
+		case "Head":
+			if kind == "mixed" && oversize {
+				return "oversize-body"
+			}
 		case "Is":
 			switch {
-			case head:
+			case heads:
 				return "head-identity"
 			case oversize:
 				return "oversize-body"
@@ -332,7 +369,7 @@ func (rn *runner) scenario(sc scenario, origin string) {
 			}
 		case "Detail":
 			switch {
-			case head:
+			case heads:
 				return "head-detail"
 			case oversize:
 				return "oversize-body"
@@ -350,13 +387,18 @@ func (rn *runner) scenario(sc scenario, origin string) {
 		return "none"
 	}
 	for _, f := range fields {
-		if f == "Head" && kind != "HEAD" {
+		if f == "Head" && kind == "body" {
 			continue
 		}
-		coq := fmt.Sprintf("{| c_err := %s; c_carrier := C%s; c_field := F%s; c_v0 := %s; c_calls := %s |}",
-			term, cr.Name, f, v0.coq(), hx.List(callTerms))
+		coq := fmt.Sprintf("(Build_case %s %s C%s F%s %s %s)",
+			term, configTerms[sc.Config], cr.Name, f, v0.coq(), hx.List(callTerms))
+		class := cr.Name + "/" + f
+		if sc.Config != "" {
+			class = cr.Name + "@" + sc.Config + "/" + f
+		}
 		tags := map[string]any{
-			"class":        cr.Name + "/" + f,
+			"class":        class,
+			"config":       sc.Config,
 			"carrier":      cr.Name,
 			"carrier_kind": kind,
 			"method":       cr.Method,
@@ -372,6 +414,8 @@ func (rn *runner) scenario(sc scenario, origin string) {
 			rn.out.Count("field:" + f)
 			if f == "Status" {
 				rn.out.Count("carrier:" + cr.Name)
+				rn.out.Count("config:" + sc.Config)
+				rn.out.Count("carrier_kind:" + kind)
 				rn.out.Count("method:" + cr.Method)
 				rn.out.Count("shape:" + sc.Err.shape())
 				rn.out.Count(fmt.Sprintf("hops:%d", sc.Hops))
@@ -387,10 +431,17 @@ func (rn *runner) scenario(sc scenario, origin string) {
 func main() {
 	cfg := hx.ParseFlags()
 	out := hx.NewOut(cfg, "Obs.C07")
-	out.ShardMax = 260
-	c := newChain()
-	defer c.close()
-	rn := &runner{c: c, out: out}
+	rn := &runner{chains: map[string]*chain{}, out: out}
+	for _, cfgName := range configs {
+		c := newChain(cfgName)
+		defer c.close()
+		rn.chains[cfgName] = c
+	}
+	// one shard per evaluation worker of the driver (16), within bounds
+	flush := func() error {
+		out.ShardMax = min(max((out.Len()+15)/16, 100), 400)
+		return out.Flush()
+	}
 
 	type replayFile struct {
 		Scenario scenario `json:"scenario"`
@@ -405,7 +456,7 @@ func main() {
 			panic(err)
 		}
 		rn.scenario(r.Scenario, "replay")
-		if err := out.Flush(); err != nil {
+		if err := flush(); err != nil {
 			panic(err)
 		}
 		return
@@ -417,7 +468,7 @@ func main() {
 		}
 	}
 	generate(rn, cfg)
-	if err := out.Flush(); err != nil {
+	if err := flush(); err != nil {
 		panic(err)
 	}
 }
